@@ -81,24 +81,29 @@ def run(ctx):
     binary = vlib.go_build_test(ctx, "outputs")
     metas = {}
     metas["commands"] = _drive(ctx, binary, "TestCommands", "commands",
-                               {"VERIF_MAXPATHS": 2 if quick else 3, "VERIF_STRIDE": 4 if quick else 1})
+                               {"VERIF_MAXPATHS": 2 if quick else 3, "VERIF_STRIDE": 4 if quick else 1, "VERIF_STRIDE3": 3})
     metas["trees"] = _drive(ctx, binary, "TestTrees", "trees",
-                            {"VERIF_WIDE": 0 if quick else 1, "VERIF_ALLCMDS": 0 if quick else 1})
+                            {"VERIF_WIDE": 0 if quick else 1, "VERIF_CMDS_PER_TREE": 1 if quick else 2})
     metas["random"] = _drive(ctx, binary, "TestRandom", "random",
                              {"VERIF_N": 1000 if quick else 6000})
     for m in metas.values():
         m.pop("files", None)
     return vlib.finish(
         ctx,
-        rule="Reference model of NewOutputHierarchy / CreateParentDirectories / UploadOutputs as a pure function "
-             "(Resolve with escape detection, ParentDirs, Expected, Tree well-formedness and denotation), checked by TLC for "
-             "internal consistency over every command with <=2 components of working directory and <=2 output paths and over "
-             "every tree of depth <=2 on two names. The real code runs against a real virtual build directory (in-memory "
-             "prepopulated directory, pool-backed files, lazily merged CAS input roots) and an in-memory CAS on: every command "
-             "of the small space (one catalogue tree each), every tree of the small family (fixed commands), seeded random deeper "
-             "cases. The harness decodes ActionResult and Tree blobs at wire level; TLC compares each case with Expected() and the "
-             "Tree operators. Distinct = distinct specification states + validated events.",
-        explanation="reference-model conformance of output_hierarchy.go over virtual_build_directory.go",
+        rule="OutputHierarchy.tla is a reference model of NewOutputHierarchy / CreateParentDirectories / UploadOutputs as a pure "
+             "function (Resolve with escape detection, ParentDirs, Expected, Tree well-formedness and denotation). TLC checks its "
+             "internal consistency (resolution normalised/idempotent/compositional, escapes final, parent directories = proper "
+             "prefixes, Expected within Declared, canonical Trees well-formed and denoting, damaged Trees rejected) over every command "
+             "with working directory <=1 (thorough: <=2) component and <=2 output paths of <=2 components over {a,b,.,..} and over "
+             "every tree of depth <=2 on two names. The real code runs (a) directly: NewOutputHierarchy, CreateParentDirectories, "
+             "UploadOutputs on a real virtual build directory (in-memory prepopulated directory, pool-backed files written through "
+             "the VFS API, input roots merged lazily from the CAS) or a naive build directory on the local file system, and (b) "
+             "through the real localBuildExecutor with a fake runner, against an in-memory CAS, on: the commands of the small space "
+             "(quick: all with <=1 path and every 4th with 2; thorough: all with <=2 and every 3rd multiset of 3; one catalogue tree "
+             "each), every tree of a small family (1 resp. 2 of 5 fixed commands each), seeded random deeper cases. The harness decodes ActionResult and "
+             "Tree blobs at wire level into plain records; TLC compares every case with Expected() and the Tree operators. "
+             "Distinct = distinct specification states + validated events.",
+        explanation="reference-model conformance of output_hierarchy.go over virtual_build_directory.go / naive_build_directory.go / local_build_executor.go",
         exhaustive=True,
         extra={"generators": metas},
     )
